@@ -378,9 +378,11 @@ func compileForCondition(
 		ContinueDepth: continueDepth,
 	})
 
-	if _, err = expression.Compile(context.Child(bodyCtx, expr)); err != nil {
+	condType, err := expression.Compile(context.Child(bodyCtx, expr))
+	if err != nil {
 		return err
 	}
+	emitConditionTruthiness(ctx.Writer, condType)
 	ctx.Writer.WriteI32Eqz()
 	ctx.Writer.WriteBrIf(1) // br to $break if condition is false
 
